@@ -139,6 +139,7 @@ class Ctx:
 
     def summ(self, rel, qual, args=None, kwargs=None, self_term=None, **kw):
         f = self.func(rel, qual)
+        T.set_context(rel)       # restatements summarised next are read in the same context
         pe = self.pe(rel, **kw)
         return pe.run_function(f, args=args, kwargs=kwargs, self_term=self_term)
 
